@@ -11,7 +11,7 @@ from common import coq_eval, natll, parse_ints, try_coq
 from gens import atoms_of
 from spgcells import exact_cell, exact_perm, hostile_descriptions, op_numerators, symmetry_ops
 
-UNITS = ["IndepGen", "ShapesSpg"]
+UNITS = ["IndepGen", "ShapesSpg", "ShapesReps", "SkelSpg", "SkelIdx"]
 PROPS = ["props/C14.v"]
 EXTRA = ["theories/Spg.vo", "theories/Pipeline.vo"]
 ASSUMPTIONS = ["spglib returns operations of the structure (each returned operation is re-validated by the exact matcher: an operation that maps some atom nowhere is reported)",
